@@ -14,7 +14,12 @@ import (
 // faults, the limit knob and prefill); any difference is a violation.
 type C04 struct{ base }
 
-func init() { registry["C04"] = func() h.Oracle { return &C04{} } }
+func init() {
+	registry["C04"] = func() h.Oracle {
+		h.KeepInitialInputs = true
+		return &C04{}
+	}
+}
 
 func (*C04) Property() string { return "C04" }
 
@@ -29,6 +34,16 @@ func (o *C04) Check(x *h.Exec, ev *h.Event) {
 	// the light snapshot (everything but the parsed syntax trees, which are
 	// covered by the full snapshot at the end of the check) is compared after
 	// every query
+	// what the indexer's own calls (collecting targets and origins, which ran
+	// before this check) did to the caller's schema, decoder context and the
+	// library's package-level variables
+	if x.S.InitialInputs != "" {
+		if now := x.S.SnapshotInputs(); now != x.S.InitialInputs {
+			field, ctx := h.SnapDiff(x.S.InitialInputs, now)
+			x.Report("mutation", "indexer", field, fmt.Sprintf("collecting reference targets/origins (or an earlier request) changed what the caller supplied, at field %s\n%s", field, ctx), nil)
+			return
+		}
+	}
 	before := x.S.SnapshotLight()
 	fullBefore := x.S.Snapshot()
 	defer func() {
